@@ -446,7 +446,32 @@ def check_value_pos(value: list) -> list[dict]:
     return []
 
 
+def _raised_in_repo(e: BaseException) -> bool:
+    """True if the innermost frame of the traceback is not /verif code (repository or a library it called)."""
+    tb = e.__traceback__
+    last = None
+    while tb is not None:
+        last = tb.tb_frame.f_code.co_filename
+        tb = tb.tb_next
+    import os
+
+    from vlib.result import VERIF
+
+    return last is not None and not os.path.abspath(last).startswith(os.path.abspath(VERIF) + os.sep)
+
+
 def check_value(kind: str, value: Any, indent: int = 0, single: bool = False) -> list[dict]:
+    """Contract (a) for one value; an exception raised by repository code is a violation, one raised by /verif code propagates."""
+    try:
+        return _check_value(kind, value, indent, single)
+    except Exception as e:
+        if not _raised_in_repo(e):
+            raise
+        return [_fail(f"C04:value:{kind}:printer-or-reader-raises-{type(e).__name__}", f"printing/reading {kind} {value!r} raises {_exc(e)}",
+                      {"part": "value", "kind": kind, "value": value, "indent": indent, "single": single}, CONTRACT_A, _exc(e))]
+
+
+def _check_value(kind: str, value: Any, indent: int = 0, single: bool = False) -> list[dict]:
     if kind == "str":
         return check_value_string(value, indent, single)
     if kind == "lang":
@@ -971,7 +996,13 @@ def _w_value_strings(args) -> dict:
         distinct += 1
         nontrivial += nontrivial_string(v)
         small = len(v) <= 5
-        k, fs = check_value_string_all(v, (0, 1, 2, 3, 4) if small else (0, 1, 2, 3), class_printers=small)
+        try:
+            k, fs = check_value_string_all(v, (0, 1, 2, 3, 4) if small else ((0, 1, 2, 3) if len(v) == 6 else (0, 2)), class_printers=small)
+        except Exception as e:
+            if not _raised_in_repo(e):
+                raise
+            k, fs = 1, [_fail(f"C04:value:str:printer-or-reader-raises-{type(e).__name__}", f"printing/reading string {v!r} raises {_exc(e)}",
+                              {"part": "value", "kind": "str", "value": v, "indent": 0, "single": False}, CONTRACT_A, _exc(e))]
         n += k
         for ind in ((0, 2) if "\n" in v else (0,)) if small else ():
             n += 1
@@ -1020,8 +1051,10 @@ def _w_converse(args) -> dict:
 
 
 def _size(inp: Any) -> tuple:
+    """Order of witnesses: shortest value first; among equals prefer indent >= 1 (indent 0 has a defect class of its own)."""
     s = json.dumps(inp.get("value", inp.get("spelling")), sort_keys=True)
-    return (len(s), inp.get("depth", 0), inp.get("indent", 0), s)
+    ind = inp.get("indent", 1)
+    return (len(s), inp.get("depth", 0), 1 if ind == 0 else 0, ind, s)
 
 
 KEEP = 3
@@ -1177,7 +1210,7 @@ def run(ctx: Ctx) -> PropResult:
     distinct_pl = len({vhash(k, v) for _c, _d, _w, its in pipeline_plan for (k, v) in its})
     res.standins.append(StandIn(
         contract=CONTRACT_A, tier="T3",
-        bound=f"all {total_strings} strings of length <= {max_len} over {list(V.ALPHABET)!r} x indents 0..4 (0..3 for lengths > 5) x both quote preferences "
+        bound=f"all {total_strings} strings of length <= {max_len} over {list(V.ALPHABET)!r} x indents 0..4 (length 6: 0..3, length 7: 0 and 2) x both quote preferences "
               f"(+ language-string printer at indents 0 and, for multi-line values, 2); {len(extra_strs)} targeted/seeded strings; {len(langs)} language strings x indents 0..4; "
               f"{len(ints)} integers; {len(fixed)} fixed-point values (all k/256 of 16 bit + constructor pairs); "
               f"{len(V.position_marks(ctx.thorough))} position marks; {len(V.constants())} constants",
